@@ -65,6 +65,41 @@ theorem advPos_col_pos (p : Nat × Nat) (l : List Char) (hp : 1 ≤ p.2) : 1 ≤
     have := ih (advPos1 p c) this
     simpa [advPos, List.foldl_cons] using this
 
+/-- the column is 1 exactly at the first character of a line -/
+theorem visualPos_col_one (src : List Char) (k : Nat) (hk : k ≤ src.length) :
+    (visualPos src k).2 = 1 ↔ (k = 0 ∨ src[k - 1]? = some '\n') := by
+  cases k with
+  | zero => simp [visualPos, advPos]
+  | succ j =>
+    have hj : j < src.length := by omega
+    have htake : src.take (j + 1) = src.take j ++ [src[j]] := by
+      rw [List.take_succ_eq_append_getElem hj]
+    have hget : src[j + 1 - 1]? = some src[j] := by
+      simp [List.getElem?_eq_getElem hj]
+    have hp := advPos_col_pos (1, 1) (src.take j) (by decide)
+    unfold visualPos
+    rw [htake, advPos_append, hget]
+    generalize advPos (1, 1) (src.take j) = q at hp
+    have hq : advPos q [src[j]] = advPos1 q src[j] := rfl
+    rw [hq]
+    unfold advPos1
+    by_cases h1 : src[j] = '\n'
+    · simp [h1]
+    · by_cases h2 : src[j] = '\t'
+      · have h3 : ¬ ('\t' = '\n') := by decide
+        simp only [h2, h3, ↓reduceIte, Option.some.injEq]
+        constructor
+        · intro h; omega
+        · intro h; rcases h with h | h
+          · omega
+          · exact h.elim
+      · simp only [h1, h2, ↓reduceIte, Option.some.injEq]
+        constructor
+        · intro h; omega
+        · intro h; rcases h with h | h
+          · omega
+          · exact h.elim
+
 /-! ### Follows -/
 
 /-- the first highlight of `d` is the position of one of the unread raw characters of `s`
